@@ -33,54 +33,215 @@ def _src(path):
     return open(os.path.join(vlib.REPO, path)).read()
 
 
+def _strip_comments(src):
+    """Rust source without // and /* */ comments (string literals in the files read contain no comment marks)"""
+    src = re.sub(r"/\*.*?\*/", "", src, flags=re.S)
+    src = re.sub(r"//[^\n]*", "", src)
+    # debug assertions restate (often negated) the very comparisons that are read: drop the macro calls
+    out, i = [], 0
+    for mm in re.finditer(r"\b(?:debug_assert(?:_eq|_ne)?|assert(?:_eq|_ne)?)!\s*\(", src):
+        if mm.start() < i:
+            continue
+        depth, j = 1, mm.end()
+        while j < len(src) and depth:
+            depth += {"(": 1, ")": -1}.get(src[j], 0)
+            j += 1
+        out.append(src[i:mm.start()])
+        i = j
+    out.append(src[i:])
+    return "".join(out)
+
+
+def _fn_body(src, name):
+    """text of `fn <name>(...) ... { body }` (brace matched), or None"""
+    m = re.search(r"\bfn\s+%s\s*(<[^>]*>)?\s*\(" % re.escape(name), src)
+    if not m:
+        return None
+    i = src.find("{", m.end())
+    if i < 0:
+        return None
+    depth, j = 0, i
+    while j < len(src):
+        if src[j] == "{":
+            depth += 1
+        elif src[j] == "}":
+            depth -= 1
+            if depth == 0:
+                return src[i + 1:j]
+        j += 1
+    return None
+
+
+def _with_helpers(src, body, depth=2):
+    """the body plus the bodies of the private helpers it calls (`self.name(` / `Self::name(` / `name(`), followed
+    `depth` levels: a few lines moved into a helper read the same"""
+    out, seen, frontier = body or "", set(), [body or ""]
+    for _ in range(depth):
+        nxt = []
+        for b in frontier:
+            for name in set(re.findall(r"(?:self\.|Self::|\b)([a-z_][a-z0-9_]*)\s*\(", b)):
+                if name in seen:
+                    continue
+                seen.add(name)
+                hb = _fn_body(src, name)
+                if hb is not None and len(hb) < 4000:
+                    out += "\n" + hb
+                    nxt.append(hb)
+        frontier = nxt
+    return out
+
+
+def _const(src, name):
+    m = re.search(r"\bconst\s+%s\s*:\s*[\w:<>]+\s*=\s*([^;]+);" % re.escape(name), src)
+    return m.group(1).strip() if m else None
+
+
+def _cmp(body, left, right):
+    """the comparison operator between something matching `left` and something matching `right`, normalised to
+    `left OP right`; also through one `let x = <left>;` binding. None when no such comparison is found."""
+    flip = {"<": ">", ">": "<", "<=": ">=", ">=": "<=", "==": "==", "!=": "!="}
+    lefts = [left] + [re.escape(v) for v in re.findall(r"let\s+(?:mut\s+)?(\w+)\s*(?::[^=]+)?=\s*(?:%s)\s*;" % left, body)]
+    rights = [right] + [re.escape(v) for v in re.findall(r"let\s+(?:mut\s+)?(\w+)\s*(?::[^=]+)?=\s*(?:%s)\s*;" % right, body)]
+    neg = {"<": ">=", ">": "<=", "<=": ">", ">=": "<", "==": "!=", "!=": "=="}
+    for l in lefts:
+        for r in rights:
+            m = re.search(r"(!\s*\(\s*)?(?:%s)\s*(<=|>=|==|!=|<|>)\s*(?:%s)" % (l, r), body)
+            if m:
+                return neg[m.group(2)] if m.group(1) else m.group(2)
+            m = re.search(r"(!\s*\(\s*)?(?:%s)\s*(<=|>=|==|!=|<|>)\s*(?:%s)" % (r, l), body)
+            if m:
+                return neg[flip[m.group(2)]] if m.group(1) else flip[m.group(2)]
+    return None
+
+
 def translate():
-    """T-const/T-order: the shapes the model hard-codes must still be the source's."""
+    """The shapes the model hard-codes must still be the source's.  Every fact is READ (operator, operand, order of
+    the checks), tolerant of renamed locals, `let` bindings, private helpers, flipped comparisons and named
+    constants; a recognised construct with another value is a hard failure, a construct that is no longer
+    recognised is `unreadable:` (see TRANSLATE_FALLBACK)."""
     fails = []
-    m = _src("lib/src/protocol/udp/manager.rs")
-    f = _src("lib/src/protocol/udp/flow.rs")
-    md = _src("lib/src/protocol/udp/mod.rs")
-    body = m[m.index("fn on_client_datagram"):m.index("fn forward_on_existing_flow")]
-    order = ["payload.len() > self.max_rx_datagram_size", "self.cluster.cluster.is_empty()", "self.extractor.flow_key",
-             "self.table.get(&key)", "if self.draining", "self.flows.len() >= self.max_flows", "UdpFlow::new(src, self.cluster.clone(), now)",
-             "self.flows.insert(flow)", "self.table.insert(key, flow_id)", "MetricEvent::FlowCreated", "Output::SelectBackend", "self.reschedule()"]
-    pos = -1
-    for o in order:
-        p = body.find(o, pos + 1)
-        if p < 0:
-            fails.append("manager.rs on_client_datagram: step '%s' missing or out of order" % o)
+    un = lambda msg: fails.append("unreadable: " + msg)
+    m = _strip_comments(_src("lib/src/protocol/udp/manager.rs"))
+    f = _strip_comments(_src("lib/src/protocol/udp/flow.rs"))
+    md = _strip_comments(_src("lib/src/protocol/udp/mod.rs"))
+    FIELD = r"(?:self\.)?[\w.]*"
+    # 1. on_client_datagram: order of the admission checks and of what an admission pushes
+    raw = _fn_body(m, "on_client_datagram") or ""
+    body = _with_helpers(m, raw)
+    steps = [("oversize check", r"max_rx\w*"), ("no-cluster check", r"cluster\w*(?:\.\w+)*\.is_empty\(\)|NoBackend"),
+             ("key extraction", r"flow_key\s*\("), ("table lookup", r"table\w*\.get\("),
+             ("drain check", r"\bdraining\b"), ("cap check", r"max_flows"),
+             ("flow construction", r"UdpFlow::new\s*\("), ("slab insert", r"flows\w*\.insert\("),
+             ("table insert", r"table\w*\.insert\("), ("FlowCreated", r"FlowCreated"), ("SelectBackend", r"SelectBackend")]
+    pos = []
+    for (what, pat) in steps:
+        mm = re.search(pat, raw)
+        if mm:
+            pos.append((mm.start(), what))      # steps still written in the function itself: their order is read
+        elif not re.search(pat, body):
+            un("manager.rs on_client_datagram: the %s was not found (model: oversize, no cluster, invalid, tracked flow, "
+               "draining, cap, admit: FlowCreated then SelectBackend)" % what)
             break
-        pos = p
-    if not re.search(r"if next != self\.armed_deadline \{\s*self\.armed_deadline = next;\s*if let Some\(deadline\) = next \{\s*self\.outputs\.push_back\(Output::ArmTimer\(deadline\)\);", m):
-        fails.append("manager.rs reschedule: no longer 'emit ArmTimer only when the minimum changes and is Some'")
-    if not re.search(r"filter\(\|\(_, flow\)\| flow\.idle_deadline <= now\)", m):
-        fails.append("manager.rs handle_timeout: due filter is no longer idle_deadline <= now")
-    if not re.search(r"self\.armed_deadline = None;\s*self\.reschedule\(\);", m[m.index("pub fn handle_timeout"):m.index("pub fn poll_timeout")]):
-        fails.append("manager.rs handle_timeout: no longer forgets the armed deadline before the final reschedule (a firing must re-emit ArmTimer)")
-    if "payload.is_empty()" not in m:
-        fails.append("manager.rs SourceTupleExtractor: empty payload no longer rejected")
-    if not re.search(r"src\.set_port\(0\)", md):
-        fails.append("mod.rs FlowKey::from_src: 2-tuple key is no longer the source with port 0")
-    if not re.search(r"self\.config\.requests != 0 && self\.requests_seen >= self\.config\.requests", f):
-        fails.append("flow.rs requests_exhausted changed")
-    if not re.search(r"self\.config\.responses != 0 && self\.responses_seen >= self\.config\.responses", f):
-        fails.append("flow.rs responses_exhausted changed")
-    if not re.search(r"let idle_deadline = now \+ config\.front_timeout;", f):
-        fails.append("flow.rs UdpFlow::new: deadline is no longer now + front_timeout")
-    # the shell side of the two contracts the theorems rely on (lib/src/udp.rs)
-    sh = _src("lib/src/udp.rs")
-    t = sh[sh.index("fn timeout(&mut self, token: Token)"):]
-    t = t[:t.index("fn close(&mut self)")]
-    if not re.search(r"handle_timeout\(now\);\s*self\.drain_outputs\(now\);", t):
-        fails.append("udp.rs timeout(): no longer handle_timeout(now) followed by drain_outputs(now) (the re-emitted ArmTimer must reach arm_timer)")
-    a = sh[sh.index("fn arm_timer(&mut self"):sh.index("fn on_close_flow(&mut self")]
-    if "cancel_timeout(&old)" not in a or not re.search(r"self\.timer_handle = Some\(timer\.set_timeout\(delay, self\.listener_token\)\);", a):
-        fails.append("udp.rs arm_timer: no longer 'cancel the previous one-shot timer, set a new one at the deadline'")
-    c = sh[sh.index("fn on_close_flow(&mut self"):sh.index("fn record_metric(")]
-    if not re.search(r"let other = if key == client \{", c) or c.count("self.client_key_to_flow.remove(") < 2:
-        fails.append("udp.rs on_close_flow: the shadow flow-table entry is no longer looked up under both affinity modes (fix d875ae5)")
-    if not re.search(r"recv_buf: vec!\[0u8; max_rx\.saturating_add\(1\)\.max\(1\)\]", sh):
-        fails.append("udp.rs: recv_buf is no longer max_rx + 1 bytes (an oversized datagram would be forwarded truncated)")
-    # slab free-list discipline
+    if [p_ for p_, _ in pos] != sorted(p_ for p_, _ in pos):
+        bad = [pos[i][1] for i in range(1, len(pos)) if pos[i][0] < pos[i - 1][0]]
+        fails.append("manager.rs on_client_datagram: the admission steps are no longer in the model's order (%s moved up)" % ", ".join(bad))
+    op = _cmp(body, r"%s\.len\(\)" % r"(?:self\.)?flows\w*", r"(?:self\.)?max_flows\w*")
+    if op is None:
+        un("manager.rs on_client_datagram: the comparison of the live count with max_flows was not found (model: shed when live >= max_flows)")
+    elif op != ">=":
+        fails.append("manager.rs on_client_datagram: sheds when flows.len() %s max_flows (model: >=)" % op)
+    op = _cmp(body, r"\w+\.len\(\)", r"(?:self\.)?max_rx\w*")
+    if op is None:
+        un("manager.rs on_client_datagram: the oversize test was not found (model: drop when payload.len() > max_rx_datagram_size)")
+    elif op != ">":
+        fails.append("manager.rs on_client_datagram: drops when payload.len() %s max_rx_datagram_size (model: >)" % op)
+    # 2. reschedule: emit ArmTimer only when the minimum changed and is Some.  The armed deadline is the manager's
+    #    one `Option<Instant>` field, whatever it is called.
+    st = re.search(r"pub struct UdpManager[^{]*\{(.*?)\n\}", m, flags=re.S)
+    am = st and re.search(r"(\w+)\s*:\s*Option<\s*Instant\s*>", st.group(1))
+    armed = re.escape(am.group(1)) if am else "armed_deadline"
+    body = _with_helpers(m, _fn_body(m, "reschedule"))
+    if not (body and "ArmTimer" in body and re.search(armed, body)
+            and (_cmp(body, r"\w+", r"(?:self\.)?%s" % armed) in ("!=", "==") or re.search(r"%s\s*(?:!=|==)" % armed, body))):
+        un("manager.rs reschedule: 'compare the new minimum with the armed deadline, store it, push ArmTimer when it is Some' was not recognised")
+    # 3. handle_timeout: due when idle_deadline <= now; forget the armed deadline before the final reschedule
+    raw = _fn_body(m, "handle_timeout")
+    body = _with_helpers(m, raw)
+    op = _cmp(body, r"\w+\.idle_deadline", r"\bnow\b")
+    if op is None:
+        un("manager.rs handle_timeout: the due test was not found (model: a flow is due when idle_deadline <= now)")
+    elif op != "<=":
+        fails.append("manager.rs handle_timeout: a flow is due when idle_deadline %s now (model: <=)" % op)
+    forget = raw and re.search(r"%s\s*=\s*(?:Option::)?None|%s\.take\(\)" % (armed, armed), body)
+    if not forget:
+        un("manager.rs handle_timeout: the armed deadline is no longer visibly forgotten before the final reschedule "
+           "(model: every firing re-emits ArmTimer while a flow remains)")
+    elif not re.search(r"reschedule\w*\s*\(", body[forget.end():]):
+        fails.append("manager.rs handle_timeout: nothing reschedules after the armed deadline is forgotten")
+    # 4. the extractor rejects an empty datagram
+    body = _with_helpers(m, _fn_body(m, "flow_key"))
+    if not (body and re.search(r"is_empty\(\)|\.len\(\)\s*==\s*0|\[\s*\]", body)):
+        un("manager.rs SourceTupleExtractor::flow_key: the empty-payload rejection was not found")
+    # 5. FlowKey::from_src: 2-tuple key = source with port 0
+    body = _with_helpers(md, _fn_body(md, "from_src"))
+    mm = body and (re.search(r"set_port\(\s*(\w+)\s*\)", body) or re.search(r"SocketAddr::new\([^,]+,\s*(\w+)\s*\)", body))
+    if not mm:
+        un("mod.rs FlowKey::from_src: the port normalisation was not found (model: port 0 when keying on the source IP)")
+    else:
+        v = mm.group(1)
+        v = _const(md, v) if not v.isdigit() and _const(md, v) else v
+        if v.isdigit() and v != "0":
+            fails.append("mod.rs FlowKey::from_src: the 2-tuple key sets the port to %s (model: 0)" % v)
+        elif not v.isdigit():
+            un("mod.rs FlowKey::from_src: the normalised port %r is not a literal or a constant of the file" % v)
+    # 6. the two caps: (knob != 0) && (seen >= knob)
+    for (fn, seen, knob) in (("requests_exhausted", "requests_seen", "requests"), ("responses_exhausted", "responses_seen", "responses")):
+        body = _with_helpers(f, _fn_body(f, fn))
+        op = body and _cmp(body, r"(?:self\.)?%s" % seen, r"(?:self\.)?(?:config\.)?%s\b" % knob)
+        zero = body and (_cmp(body, r"(?:self\.)?(?:config\.)?%s\b" % knob, r"0") or ("unlimited" in body and "!"))
+        if not body or op is None or not zero:
+            un("flow.rs %s: '%s != 0 && %s >= %s' was not recognised" % (fn, knob, seen, knob))
+        elif op != ">=" or not (zero in ("!=", ">", "!") or (zero == "==" and re.search(r"==\s*0\s*\{\s*return\s+false", body))):
+            fails.append("flow.rs %s: exhausted when %s %s %s and knob %s 0 (model: >= and != 0)" % (fn, seen, op, knob, zero))
+    # 7. UdpFlow::new arms the front timeout
+    body = _with_helpers(f, _fn_body(f, "new"))
+    mm = body and re.search(r"now\s*\+\s*[\w.]*?(front|back)_timeout|[\w.]*?(front|back)_timeout\s*\+\s*now", body)
+    if not mm:
+        un("flow.rs UdpFlow::new: the initial idle deadline was not found (model: now + front_timeout)")
+    elif (mm.group(1) or mm.group(2)) != "front":
+        fails.append("flow.rs UdpFlow::new: the initial idle deadline uses the back timeout (model: now + front_timeout)")
+    # ---- the shell side of the contracts the shell theorems rely on (lib/src/udp.rs)
+    sh = _strip_comments(_src("lib/src/udp.rs"))
+    body = _with_helpers(sh, _fn_body(sh, "timeout"), depth=1)
+    a, b2 = (re.search(r"handle_timeout\s*\(", body or ""), re.search(r"drain_outputs\s*\(", body or ""))
+    if not a or not b2:
+        un("udp.rs timeout(): handle_timeout(..) followed by drain_outputs(..) was not recognised (the re-emitted ArmTimer must reach arm_timer)")
+    elif b2.start() < a.start() and not re.search(r"drain_outputs\s*\(", body[a.end():]):
+        fails.append("udp.rs timeout(): the outputs are drained before handle_timeout and not after it")
+    body = _with_helpers(sh, _fn_body(sh, "arm_timer"), depth=1)
+    if not (body and re.search(r"cancel_timeout\s*\(", body) and re.search(r"set_timeout\s*\(", body)):
+        un("udp.rs arm_timer: 'cancel the previous one-shot timer, set a new one' was not recognised")
+    # the shadow flow table is `name: HashMap<SocketAddr, FlowId>`; on_close_flow must try both affinity keys (fix d875ae5).
+    # NOT observable on a release build (only the debug assertion / a leaked entry): stays a hard fact, read by meaning.
+    shadow = re.search(r"(\w+)\s*:\s*HashMap<\s*SocketAddr\s*,\s*FlowId\s*>", sh)
+    body = _with_helpers(sh, _fn_body(sh, "on_close_flow"), depth=2)
+    if not shadow or not body:
+        fails.append("udp.rs: the shadow flow table (HashMap<SocketAddr, FlowId>) or on_close_flow was not found: cannot see that "
+                     "a closing flow's entry is dropped under both affinity modes (fix d875ae5)")
+    else:
+        name = re.escape(shadow.group(1))
+        removes = len(re.findall(r"%s\s*\.\s*remove\s*\(" % name, body))
+        if not (removes >= 2 or re.search(r"%s\s*\.\s*retain\s*\(" % name, body)
+                or (removes >= 1 and re.search(r"\bfor\b[^{]*\[[^\]]*\]|\bfor\b[^{]*\bin\b", body))):
+            fails.append("udp.rs on_close_flow: the shadow flow-table entry is no longer dropped under both affinity modes (fix d875ae5)")
+    # recv_buf is one byte larger than max_rx, in the constructor and in the resize
+    plus1 = r"saturating_add\(\s*1\s*\)|\w+\s*\+\s*1\b|\b1\s*\+\s*\w+|checked_add\(\s*1\s*\)"
+    ctor = "\n".join(re.findall(r"recv_buf\s*:[^\n]*", sh))
+    nb = sum(1 for part in (_with_helpers(sh, ctor, depth=1), _with_helpers(sh, _fn_body(sh, "resize_recv_buf") or "", depth=1))
+             if re.search(plus1, part))
+    if nb < 2:
+        un("udp.rs: recv_buf = max_rx + 1 bytes (constructor and resize_recv_buf) was not recognised (an oversized datagram must stay recognisable)")
+    # ---- slab free-list discipline (third-party crate, pinned by Cargo.lock)
     import glob
     cands = sorted(glob.glob(os.path.expanduser("~/.cargo/registry/src/*/slab-0.4.*/src/lib.rs")))
     lock = _src("Cargo.lock")
@@ -94,8 +255,20 @@ def translate():
             if not re.search(r"let key = self\.next;\s*self\.insert_at\(key, val\);", s) or \
                not re.search(r"core::mem::replace\(entry, Entry::Vacant\(self\.next\)\)", s) or \
                not re.search(r"self\.next = key;", s):
-                fails.append("slab: insert/try_remove no longer follow the free-list discipline of Common/Slab.v")
+                un("slab: insert/try_remove were not recognised as the free-list discipline of Common/Slab.v")
     return fails
+
+
+TRANSLATE_FALLBACK = ("every fact read from manager.rs / flow.rs / mod.rs (order of the admission checks, >= at the cap, > at "
+                      "max_rx, <= at the idle deadline, re-arm after a firing, empty-payload rejection, port 0 in the 2-tuple "
+                      "key, the two cap predicates, the initial front deadline, the slab free list) determines the output "
+                      "stream, FlowIds and flow dumps of the real UdpManager, which the driver prints after EVERY call and "
+                      "the correspondence check compares with the model on histories drawn at exactly those boundaries "
+                      "(payload sizes max_rx-1/max_rx/max_rx+1, caps 0..6 with shrinks below the live count, clock steps "
+                      "at deadline-1/deadline/deadline+1, op fire, empty payloads, both affinity modes with port 0); the "
+                      "shell facts (timeout -> handle_timeout -> drain_outputs, arm_timer, recv_buf = max_rx+1) determine "
+                      "what the black-box corpus observes on every run (idle_reaper, oversize_boundary); the one fact "
+                      "nothing observes on a release build (both-keys removal in on_close_flow) is never soft")
 
 
 # ---------------------------------------------------------------------------
